@@ -204,12 +204,19 @@ class Chooser:
 # (S) monitors: the property on the real code's observable behaviour alone
 
 
+def _int(x: str) -> Any:
+    try:
+        return int(x)
+    except ValueError:
+        return None  # not one of our objects (the monitor reports it as a wrong object)
+
+
 def parse_events(events: list[str]) -> list[tuple]:
     out = []
     for e in events:
         p = e.split(":")
         if p[0] == "call":
-            out.append(("call", int(p[1]), int(p[2]), int(p[3]), [int(x) for x in p[4].split(".") if x != ""]))
+            out.append(("call", int(p[1]), int(p[2]), int(p[3]), [_int(x) for x in p[4].split(".") if x != ""]))
         elif p[0] in ("made", "raised"):
             out.append((p[0], int(p[1]), int(p[2]), int(p[3])))
         elif p[0] == "fin":
@@ -421,6 +428,9 @@ def run_wf_cases(cases: list[dict], cfg: dict, out: Outcome) -> None:
         def flat(ls: list[str]) -> tuple[list[str], bool]:
             toks: list[str] = []
             for l in ls:
+                if " | " not in l:  # disabled / bad-op / fuel-exhausted
+                    toks.append(l)
+                    continue
                 for tok in l.split(" | ")[0].split(" "):
                     if tok and int(tok.split(":")[1]) not in empty:
                         toks.append(tok)
@@ -443,6 +453,10 @@ def run_wf_cases(cases: list[dict], cfg: dict, out: Outcome) -> None:
         pos += n
         for sig, what in monitor(g, info, info["all_opened"], None):
             out.violations.append(Violation(sig, what, {"kind": "workflow", **case}))
+        if info["result"] == "stuck":
+            out.violations.append(Violation(
+                "C22/stuck" + ("[concurrent]" if info["overlapped"] else "[sequential]"),
+                "workflow never finished: no invocation can run and no gate is left to open", {"kind": "workflow", **case}))
         if info["result"].startswith("error:") and all(wellfounded(g)) and not any(r["f"] for r in g):
             out.violations.append(Violation(
                 "C22/workflow_failed" + ("[concurrent]" if info["overlapped"] else "[sequential]"),
